@@ -18,9 +18,9 @@ import (
 
 type convOutcome struct {
 	kind, tag, expr, code string
-	same                 bool
-	conds                []string
-	why                  string
+	same                  bool
+	conds                 []string
+	why                   string
 }
 
 func (h *vxHarness) runConvert(t1, t2 string) []convOutcome {
